@@ -29,7 +29,8 @@ MANIFEST = {
             "the theorem to the BYTES of a file (any tolerated header, the declared codec: composition with C05's parse_header_exact), and the front-door "
             "stream reads such files with OFXTree.parse and compares with TreeBuilder on the body.",
     "note": "Trusted: Coq kernel + vm_compute; the hand transcription Model/Sgml.v of regex+feed+C TreeBuilder (validated by correspondence only, "
-            "incl. exhaustive short strings against re.finditer); the whitespace table regenerated from the interpreter. parse_render_faithful holds for every "
+            "incl. exhaustive short strings against re.finditer); the whitespace table regenerated from the interpreter; normalised-AST hashes of the transcribed functions are tripwires only (a changed hash triggers a wider search, "
+            "not a failure); fail-closed are the regex variant, methods added to/overriding xml.etree's TreeBuilder, and what OFXTree.parse/_read call. parse_render_faithful holds for every "
             "configuration with the repaired regex (fix e7395eb), whatever the builder; obligation source_is_repaired_variant ties /repo's regex to that variant.",
 }
 
@@ -575,7 +576,7 @@ def run(rep, tier, rng):
     variant = repo_variant()
     thorough = tier == "thorough"
     deep = thorough or not variant["known"]
-    rep.extra["source_variant"] = {k: variant[k] for k in ("cdata_lazy", "checked", "known")}
+    rep.extra["source_variant"] = {k: variant[k] for k in ("cdata_lazy", "checked", "known", "source_changes", "source_problems")}
     import time
     rep.extra.setdefault("phase_s", {})["translate+build(incl. lock wait)"] = round(time.time() - rep.t0, 1)
     fails = rep.failures
